@@ -1,26 +1,64 @@
-"""C18 — socket and pipe transports: record framing and pipe path wiring (Engine A); response matching outside."""
+"""C18 — socket and pipe transports: record framing and pipe wiring (Engine A) + the server's connection handler on the
+asyncio model (Engine B); the client's matching of responses to requests is outside."""
+import time
+
 from . import _a
+from .common import finish, load_known, run_b_job, run_jobs
 
 PID = 'C18'
+K = 'models.socket_scn:SocketScn'
+
+
+def b_configs(tier):
+    cs = [dict(kind='server', requests=1, handler_kinds=4, end='eof'),
+          dict(kind='server', requests=2, handler_kinds=1, end='eof', backlog=1)]
+    if tier == 'thorough':
+        cs += [dict(kind='server', requests=2, handler_kinds=3, end='eof'),
+               dict(kind='server', requests=3, handler_kinds=1, end='eof', backlog=1)]
+    return cs
 
 
 def run(tier):
-    return _a.run(
-        PID, tier, ['harness.C18_framing'],
-        explanation='Real socket.write_record/read_record/encode/decode coroutines are driven by hand over one byte buffer (stub '
-                    'StreamReader/Writer, asyncio.wait_for replaced by a pass-through): two consecutive records with SYMBOLIC payload '
-                    'bytes (<= 6 bytes each: newlines, spaces and header look-alikes are in range) must parse back to exactly the two '
-                    'payloads with the buffer fully consumed; also utf8 strings, a catalogue of header-like payloads and of pickled '
-                    'objects. Named pipes: mpservice contributes only the path wiring, checked on an in-memory FIFO stub for every '
-                    'short send sequence in both directions.',
+    t0 = time.time()
+    known = load_known(PID)
+    # Engine A part (its own evidence is merged below)
+    a_results = _a.run(
+        PID, tier, ['harness.C18_framing'], collect_only=True,
+        explanation='', assumptions=[], outside=[], timeout_quick=300, timeout_thorough=900, functions=[])
+    jobs = [(run_b_job, ({'property': PID, 'scenario': K, 'params': p, 'known': known},
+                         3300 if tier == 'thorough' else 1500)) for p in b_configs(tier)]
+    b_results = run_jobs(jobs)
+    return finish(
+        PID, tier, 'model_checking', list(a_results) + list(b_results), t0,
+        explanation='(A) Real socket.write_record/read_record/encode/decode coroutines are driven by hand over one byte buffer (stub '
+                    'StreamReader/Writer): two consecutive records with SYMBOLIC payload bytes (<= 6 bytes each: newlines, spaces and '
+                    'header look-alikes are in range) must parse back to exactly the two payloads with the buffer fully consumed; also '
+                    'utf8 strings, a catalogue of header-like payloads and of pickled objects. Named pipes: mpservice contributes only '
+                    'the path wiring, checked on an in-memory FIFO stub for every short send sequence in both directions. '
+                    '(B) The REAL SocketServer._handle_connection — its _keep_receiving and _keep_responding tasks, the handler tasks '
+                    'it creates, write_record/read_record — runs on the asyncio model (engine_b/aio.py: tasks = threads, the loop = one '
+                    'mutex released only at suspension points, wait_for = a wait that may time out whenever it cannot complete) over '
+                    'stub byte streams; the peer frames its requests with the real write_record and parses the answers with the real '
+                    'read_record. What each handler does is symbolic (returns / raises ValueError / raises TimeoutError / returns '
+                    'late). Checked: one response per request, in request order, carrying the id of its request and the handler\'s '
+                    'own value or exception (class and args); after the peer closes, the handler ends, the connection count is back '
+                    'to 0 and nothing but end-of-file follows; no task left spinning with the peer blocked (progress query). '
+                    'Counterexamples are replayed on the REAL event loop over a real unix socket (models/socket_real.py).',
         assumptions=['asyncio.StreamReader.readuntil/readexactly contract over a finite buffer', 'pickle itself is trusted',
-                     'request ids are concrete (1-char, 5-char, 15-digit)'],
-        outside=['matching of responses to futures by request id and per-connection response order under reordering handlers '
-                 '(closures of SocketClient._open_connections / SocketServer._handle_connection need an event-loop model; not built)',
-                 'data integrity/order of the real OS FIFOs (multiprocessing.connection.Connection + kernel)',
-                 'multi-megabyte payloads, real socket back-pressure'],
-        timeout_quick=300, timeout_thorough=900,
+                     'request ids are concrete (1-char, 5-char, 15-digit; "11", "12" in the model)',
+                     'asyncio model: any ready task may run next (over-approximates the FIFO ready queue); StreamWriter.drain() does '
+                     'not suspend (payloads below the 64 KiB high-water mark); a timed-out queue get / stream read consumes nothing',
+                     'in the model RemoteException pickles to the original class and args without the traceback text (C15\'s subject); '
+                     'the real-loop replay uses the real class'],
+        outside=['SocketClient: matching of responses to futures by request id over several connections, stream() order (the closures '
+                 'of SocketClient._open_connections need threads talking to the loop through SingleLane polling: not built)',
+                 'the /shutdown request: the model shows that a poll of the responder expiring exactly when the shutdown request is '
+                 'queued makes the server drop the answer to that request; the race could not be forced on the real event loop, so it '
+                 'is reported neither as a violation nor as a finding, and connections end by end-of-file in the configurations',
+                 'several connections at once; data integrity/order of the real OS FIFOs and sockets; multi-megabyte payloads and real '
+                 'socket back-pressure'],
         functions=['mpservice/socket.py:write_record', 'mpservice/socket.py:read_record', 'mpservice/socket.py:encode',
                    'mpservice/socket.py:decode', 'mpservice/pipe.py:_Pipe.__init__', 'mpservice/pipe.py:_Pipe.send',
                    'mpservice/pipe.py:_Pipe.recv', 'mpservice/pipe.py:_Pipe._get_reader', 'mpservice/pipe.py:Server.__init__',
-                   'mpservice/pipe.py:Client.__init__'])
+                   'mpservice/pipe.py:Client.__init__', 'mpservice/socket.py:SocketServer._handle_connection',
+                   'mpservice/socket.py:SocketApplication.handle_request'])
